@@ -207,6 +207,9 @@ func (c *Conn) loadSession(dest string, hello *clientHelloMsg) (cacheKey string,
 	if err := c.verifySessionCertificates(session.peerCertificates); err != nil {
 		return cacheKey, nil
 	}
+	// 握手期间使用会话的独立副本：缓存淘汰该条目时会清零缓存中会话的主密钥，
+	// 不得破坏正在进行的握手所使用的会话。
+	session = session.clone()
 	// 设置客户端Hello 会话ID
 	hello.sessionId = session.sessionId
 	cacheKey = hex.EncodeToString(session.sessionId)
